@@ -46,6 +46,8 @@ func TestCheck(t *testing.T) {
 		tokenBucketReconfigured(r)
 		tokenBucketReconfiguredWhileAsked(r)
 		r.ReportSched()
+		r.Require(r.Counter("reinit_premise_not_met") == 0 && !bed.PremiseBroken(),
+			"a server's store held state that did not come through that server (stores shared between servers / surviving a loss of leadership: C13's clause): the server-based scenarios give no verdict")
 		r.Require(r.Counter("seq_ops") >= 20000 && r.Counter("seq_increase_applied") >= 1000 && r.Counter("seq_increase_refused") >= 1000 &&
 			r.Counter("seq_boundary_counts") >= 2000 && r.Counter("seq_asks_whose_sum_exceeds_int32") >= 300 && r.Counter("batch_boundary_counts") >= 1000 &&
 			r.Counter("seq_negative_id_after_a_positive_one") >= 200 && r.Counter("seq_stale_id") >= 500 && r.Counter("seq_stale_id_far_behind") >= 300 && r.Counter("seq_removals") >= 500 && r.Counter("seq_decrease_while_over_limit") >= 100, "sequential part observed too little")
@@ -139,7 +141,7 @@ type viaServer struct {
 }
 
 func newViaServer(max int32, i int) (*viaServer, error) {
-	v := &viaServer{srv: bed.NewLimiterServer(bed.LimiterOptions{LeadAll: true, Shards: 1 + i%3}), upstream: fmt.Sprintf("up%d", i%5)}
+	v := &viaServer{srv: bed.NewLimiterServer(bed.LimiterOptions{LeadAll: true, Shards: 1 + i%3}), upstream: fmt.Sprintf("up%s%d", phaseTag, i)}
 	return v, v.apply(max)
 }
 
@@ -242,6 +244,27 @@ func (v *viaServer) Debug() (debug, bool) {
 	return parseDebug(fc.DebugInfo())
 }
 func (v *viaServer) Name() string { return "rateLimiter.DoAcquire/DeleteInstanceState" }
+
+// viol records a violation found through a limiter server - unless the premise is broken that the server's stores hold only
+// what came through this server (bed.StoreHasForeignUpstreams; C13's statement): then there is no verdict.
+func viol(r *vkit.R, srv *bed.LimiterServer, sig, what string, witness interface{}) {
+	if (srv != nil && bed.StoreHasForeignUpstreams(srv)) || (srv == nil && bed.PremiseBroken()) {
+		r.Count("reinit_premise_not_met", 1)
+		return
+	}
+	r.Violation(sig, what, witness)
+}
+
+// phaseTag makes the upstream names of every scenario of every phase unique in the process (the phases run one after the
+// other; a name of its own per server is what lets bed.StoreHasForeignUpstreams recognise state that came from another server).
+var phaseTag string
+
+func srvOf(tg target) *bed.LimiterServer {
+	if v, ok := tg.(*viaServer); ok {
+		return v.srv
+	}
+	return nil
+}
 
 // ---------------------------------------------------------------- judging one answer
 
@@ -360,6 +383,7 @@ type seqOp struct {
 }
 
 func sequential(r *vkit.R) {
+	phaseTag = "S"
 	n := r.N(4000, 40000)
 	r.Parallel(n, 16, func(i int, g *vkit.Rand) {
 		max := g.PickI32([]int32{1, 2, 3, 5, 10, 50})
@@ -398,7 +422,7 @@ func sequential(r *vkit.R) {
 		var trace []seqOp
 		nontrivial := false
 		fail := func(sig, what string) {
-			r.Violation(sig, what, map[string]interface{}{"target": tg.Name(), "initialLimit": max, "ops": trace})
+			viol(r, srvOf(tg), sig, what, map[string]interface{}{"target": tg.Name(), "initialLimit": max, "ops": trace})
 		}
 		nOps := g.Range(25, 60)
 		for op := 0; op < nOps; op++ {
@@ -653,6 +677,7 @@ func runClients(tg target, clients [][]In, ids map[string]*int64, extra ...func(
 }
 
 func batches(r *vkit.R) {
+	phaseTag = "B"
 	n := r.N(1500, 15000)
 	r.Parallel(n, 8, func(i int, g *vkit.Rand) {
 		max := g.PickI32([]int32{2, 5, 10, 20, 100})
@@ -772,7 +797,7 @@ func batches(r *vkit.R) {
 					for _, in := range victims {
 						r.Count("batch_negative_asks_racing", 1)
 						if out := vs.ask(in, neg); !out.refusedWithError {
-							r.Violation("C08/doacquire/negative-ask-not-refused/racing", fmt.Sprintf("DoAcquire(%s, tokens=%d) racing with reports answered accept=%v limit=%d error=%q", in, neg, out.accept, out.limit, out.err), nil)
+							viol(r, srvOf(tg), "C08/doacquire/negative-ask-not-refused/racing", fmt.Sprintf("DoAcquire(%s, tokens=%d) racing with reports answered accept=%v limit=%d error=%q", in, neg, out.accept, out.limit, out.err), nil)
 						}
 					}
 				})
@@ -797,19 +822,19 @@ func batches(r *vkit.R) {
 			}
 			for _, c := range calls {
 				if c.Out.Err != "" {
-					r.Violation("C08/maxinflight/concurrent/"+kind+"/unexpected-error", fmt.Sprintf("%s: SetState(%+v) failed: %s", tg.Name(), c.In, c.Out.Err), wit())
+					viol(r, srvOf(tg), "C08/maxinflight/concurrent/"+kind+"/unexpected-error", fmt.Sprintf("%s: SetState(%+v) failed: %s", tg.Name(), c.In, c.Out.Err), wit())
 					return
 				}
 			}
 			// (A) exact accounting at quiescence
 			if d.Count != d.Total {
-				r.Violation("C08/maxinflight/concurrent/"+kind+"/total-differs-from-sum",
+				viol(r, srvOf(tg), "C08/maxinflight/concurrent/"+kind+"/total-differs-from-sum",
 					fmt.Sprintf("%s: after a batch of kind %q the running total is %d but the per-instance counts on record sum to %d (limit %d, %v)", tg.Name(), kind, d.Count, d.Total, d.Max, d.Per), wit())
 				return
 			}
 			for in, v := range d.Per {
 				if v < 0 {
-					r.Violation("C08/maxinflight/concurrent/"+kind+"/negative-instance-count",
+					viol(r, srvOf(tg), "C08/maxinflight/concurrent/"+kind+"/negative-instance-count",
 						fmt.Sprintf("%s: after a batch of kind %q instance %s has %d on record", tg.Name(), kind, in, v), wit())
 					return
 				}
@@ -823,7 +848,7 @@ func batches(r *vkit.R) {
 				bound = int64(oldMax)
 			}
 			if d.Max != int64(max) {
-				r.Violation("C08/maxinflight/concurrent/"+kind+"/limit-in-force-differs", fmt.Sprintf("%s: after the batch the limit in force is %d, the configured global limit is %d", tg.Name(), d.Max, max), wit())
+				viol(r, srvOf(tg), "C08/maxinflight/concurrent/"+kind+"/limit-in-force-differs", fmt.Sprintf("%s: after the batch the limit in force is %d, the configured global limit is %d", tg.Name(), d.Max, max), wit())
 				return
 			}
 			var sumPer int64 // the per-instance counts summed in int64 (the server's own totals are int32)
@@ -835,7 +860,7 @@ func batches(r *vkit.R) {
 				if sumPer > math.MaxInt32 {
 					sig += "/int32-wrap"
 				}
-				r.Violation(sig, fmt.Sprintf("%s: counts on record sum to %d after the batch (limit %d, sum before %d; the server prints count=%d total=%d)", tg.Name(), sumPer, max, sumBefore, d.Count, d.Total), wit())
+				viol(r, srvOf(tg), sig, fmt.Sprintf("%s: counts on record sum to %d after the batch (limit %d, sum before %d; the server prints count=%d total=%d)", tg.Name(), sumPer, max, sumBefore, d.Count, d.Total), wit())
 				return
 			}
 			// per call (kinds with one writer per instance and no removal of that instance: its record is known exactly)
@@ -850,7 +875,7 @@ func batches(r *vkit.R) {
 					prev := known[c.In.Instance]
 					switch {
 					case c.Out.TooOld:
-						r.Violation("C08/maxinflight/concurrent/"+kind+"/fresh-id-refused", fmt.Sprintf("%s: the only writer of %s sent increasing ids, id %d was refused as too old", tg.Name(), c.In.Instance, c.In.ID), wit())
+						viol(r, srvOf(tg), "C08/maxinflight/concurrent/"+kind+"/fresh-id-refused", fmt.Sprintf("%s: the only writer of %s sent increasing ids, id %d was refused as too old", tg.Name(), c.In.Instance, c.In.ID), wit())
 						bad = true
 					case int64(c.In.Count) <= prev:
 						r.Count("batch_decreases", 1)
@@ -862,7 +887,7 @@ func batches(r *vkit.R) {
 							if strings.HasSuffix(kind, "+resize") {
 								ctx = "racing-limit-change"
 							}
-							r.Violation("C08/maxinflight/concurrent/decrease-not-applied/"+ctx,
+							viol(r, srvOf(tg), "C08/maxinflight/concurrent/decrease-not-applied/"+ctx,
 								fmt.Sprintf("%s: instance %s had %d on record and reported %d (id %d): answered accept=%v latest=%d - a report that does not raise the count must be applied (limit %d, sum before the batch %d)",
 									tg.Name(), c.In.Instance, prev, c.In.Count, c.In.ID, c.Out.Accept, c.Out.Latest, max, sumBefore), wit())
 							bad = true
@@ -872,7 +897,7 @@ func batches(r *vkit.R) {
 					case int64(c.Out.Latest) == prev:
 						r.Count("batch_increase_refused", 1)
 					default:
-						r.Violation("C08/maxinflight/concurrent/"+kind+"/answer-inconsistent",
+						viol(r, srvOf(tg), "C08/maxinflight/concurrent/"+kind+"/answer-inconsistent",
 							fmt.Sprintf("%s: instance %s had %d on record, reported %d, answered latest=%d (neither)", tg.Name(), c.In.Instance, prev, c.In.Count, c.Out.Latest), wit())
 						bad = true
 					}
@@ -884,7 +909,7 @@ func batches(r *vkit.R) {
 				}
 				for in, v := range last {
 					if d.Per[in] != v {
-						r.Violation("C08/maxinflight/concurrent/"+kind+"/record-differs-from-answer",
+						viol(r, srvOf(tg), "C08/maxinflight/concurrent/"+kind+"/record-differs-from-answer",
 							fmt.Sprintf("%s: the only writer of %s was last answered latest=%d but %d is on record", tg.Name(), in, v, d.Per[in]), wit())
 						return
 					}
@@ -1033,13 +1058,13 @@ func histories(r *vkit.R) {
 					hint = "several-writers-per-instance"
 				}
 			}
-			r.Violation("C08/maxinflight/linearizability/"+hint,
+			viol(r, nil, "C08/maxinflight/linearizability/"+hint,
 				fmt.Sprintf("a history of %d SetState calls (%s, limit %d) has no sequential explanation under the reference model (decrease always applied, increase only within the limit, stale id refused, removal exact)", len(calls), mode, max), wit)
 		case vkit.LinUnknown:
 			r.Inconclusive("porcupine timed out on a history")
 		}
 		if d.Count != d.Total {
-			r.Violation("C08/maxinflight/history/total-differs-from-sum",
+			viol(r, nil, "C08/maxinflight/history/total-differs-from-sum",
 				fmt.Sprintf("after a history (%s) the running total is %d but the per-instance counts sum to %d", mode, d.Count, d.Total), wit)
 		}
 		if i < 1 {
@@ -1057,7 +1082,7 @@ type tbServer struct {
 }
 
 func newTBServer(i int, schemas ...proxyv1alpha1.FlowControlSchema) (*tbServer, error) {
-	t := &tbServer{srv: bed.NewLimiterServer(bed.LimiterOptions{LeadAll: true, Shards: 1 + i%3}), upstream: fmt.Sprintf("tb%d", i%5)}
+	t := &tbServer{srv: bed.NewLimiterServer(bed.LimiterOptions{LeadAll: true, Shards: 1 + i%3}), upstream: fmt.Sprintf("tb%s%d", phaseTag, i)}
 	t.cluster = &proxyv1alpha1.UpstreamCluster{ObjectMeta: metav1.ObjectMeta{Name: t.upstream}}
 	t.cluster.Spec.FlowControl.Schemas = schemas
 	return t, t.srv.ApplyUpstream(t.cluster)
@@ -1084,6 +1109,7 @@ type panicErr struct{ msg string }
 func (p panicErr) Error() string { return "DoAcquire panicked: " + p.msg }
 
 func negativeAsks(r *vkit.R) {
+	phaseTag = "N"
 	n := r.N(60, 600)
 	r.Parallel(n, 8, func(i int, g *vkit.Rand) {
 		max := int32(g.Range(2, 20))
@@ -1105,7 +1131,7 @@ func negativeAsks(r *vkit.R) {
 			r.Count("tb_negative_asks", 1)
 			r.Eval(1)
 			if pe, ok := err.(panicErr); ok {
-				r.Violation("C08/doacquire/negative-ask-not-refused/"+name, fmt.Sprintf("DoAcquire with tokens=%d on the %s schema: %v (a negative ask must be refused, not crash the handler)", neg, name, pe),
+				viol(r, t.srv, "C08/doacquire/negative-ask-not-refused/"+name, fmt.Sprintf("DoAcquire with tokens=%d on the %s schema: %v (a negative ask must be refused, not crash the handler)", neg, name, pe),
 					map[string]interface{}{"tokens": neg, "schema": name, "panic": pe.msg})
 				continue
 			}
@@ -1113,14 +1139,14 @@ func negativeAsks(r *vkit.R) {
 				continue // the whole request refused: fine
 			}
 			if rs.Accept || rs.Error == "" || rs.Limit < 0 {
-				r.Violation("C08/doacquire/negative-ask-not-refused/"+name,
+				viol(r, t.srv, "C08/doacquire/negative-ask-not-refused/"+name,
 					fmt.Sprintf("DoAcquire with tokens=%d on the %s schema answered accept=%v limit=%d error=%q (negative asks must be refused)", neg, name, rs.Accept, rs.Limit, rs.Error),
 					map[string]interface{}{"tokens": neg, "schema": name, "result": rs})
 			}
 		}
 		after, _ := parseDebug(fc.DebugInfo())
 		if after.Count != before.Count || after.Per["gw0"] != before.Per["gw0"] {
-			r.Violation("C08/doacquire/negative-ask-changed-state/mif",
+			viol(r, t.srv, "C08/doacquire/negative-ask-changed-state/mif",
 				fmt.Sprintf("a refused negative ask (tokens=%d) changed the max-in-flight record of gw0: %d -> %d (total %d -> %d)", neg, before.Per["gw0"], after.Per["gw0"], before.Count, after.Count),
 				map[string]interface{}{"tokens": neg, "before": before, "after": after})
 		}
@@ -1136,6 +1162,7 @@ type grant struct {
 }
 
 func tokenBucket(r *vkit.R) {
+	phaseTag = "T"
 	n := r.N(120, 900)
 	cfgs := [][2]int32{{50, 1}, {200, 200}, {1000, 50}, {5000, 500}, {20000, 1}, {1000, 10}, {100, 5}}
 	r.Parallel(n, 8, func(i int, g *vkit.Rand) {
@@ -1219,7 +1246,7 @@ func tokenBucket(r *vkit.R) {
 						if ask < 0 {
 							cls = "C08/doacquire/negative-ask-not-refused/tb"
 						}
-						r.Violation(cls, fmt.Sprintf("DoAcquire with tokens=%d on a token-bucket schema: %v", ask, pe), map[string]interface{}{"tokens": ask, "panic": pe.msg})
+						viol(r, t.srv, cls, fmt.Sprintf("DoAcquire with tokens=%d on a token-bucket schema: %v", ask, pe), map[string]interface{}{"tokens": ask, "panic": pe.msg})
 						continue
 					}
 					if err != nil {
@@ -1234,7 +1261,7 @@ func tokenBucket(r *vkit.R) {
 					}
 					if ask < 0 {
 						if rs.Accept || rs.Error == "" {
-							r.Violation("C08/doacquire/negative-ask-not-refused/tb", fmt.Sprintf("DoAcquire with tokens=%d on a token-bucket schema answered accept=%v limit=%d error=%q", ask, rs.Accept, rs.Limit, rs.Error), gr)
+							viol(r, t.srv, "C08/doacquire/negative-ask-not-refused/tb", fmt.Sprintf("DoAcquire with tokens=%d on a token-bucket schema answered accept=%v limit=%d error=%q", ask, rs.Accept, rs.Limit, rs.Error), gr)
 						}
 						r.Count("tb_negative_asks", 1)
 						continue
@@ -1246,7 +1273,7 @@ func tokenBucket(r *vkit.R) {
 						}
 					}
 					if !legal || gr.Granted < 0 || gr.Granted > ask {
-						r.Violation("C08/tokenbucket/grant-not-in-halving-series", fmt.Sprintf("asked %d tokens, granted %d (accept=%v): not one of n, n/2, n/4, n/8, 0", ask, gr.Granted, rs.Accept), gr)
+						viol(r, t.srv, "C08/tokenbucket/grant-not-in-halving-series", fmt.Sprintf("asked %d tokens, granted %d (accept=%v): not one of n, n/2, n/4, n/8, 0", ask, gr.Granted, rs.Accept), gr)
 					}
 					if gr.Granted != ask {
 						r.Count("tb_refused_or_partial", 1)
@@ -1339,7 +1366,7 @@ func tokenBucket(r *vkit.R) {
 					} else if !serial {
 						sig = "C08/tokenbucket/window-bound/concurrent-callers"
 					}
-					r.Violation(sig,
+					viol(r, t.srv, sig,
 						fmt.Sprintf("token bucket qps=%d burst=%d: %d tokens were granted by calls lying entirely inside a window of %.3f ms, more than burst+qps*T = %.1f", qps, burst, sum, float64(B-A)/1e6, allowed-1),
 						map[string]interface{}{"qps": qps, "burst": burst, "window_start_ns": A, "window_end_ns": B, "granted_in_window": sum, "allowed_incl_slack": allowed, "instances": k, "caller_goroutines": callers, "grants_total": len(grants)})
 					return
